@@ -1,6 +1,7 @@
 mod alloc;
 mod json;
 mod kids;
+mod mt;
 mod prng;
 mod scen;
 mod sim;
@@ -34,6 +35,7 @@ fn params(args: &[String]) -> sim::Params {
         kind: arg_s(args, "--kind").and_then(|s| subject::Kind::from_name(&s)),
         scenario: arg_s(args, "--scen"),
         cut: arg_s(args, "--cut").and_then(|s| s.parse().ok()),
+        no_poison: flag(args, "--no-poison"),
     }
 }
 
@@ -117,7 +119,7 @@ fn viol_json(p: &sim::Params, i: u64, r: &sim::HistResult, v: &world::Violation)
         .bool("small", p.small)
         .num("max_ops", p.max_ops)
         .num("ops", r.ops)
-        .raw("tail", json::str_arr(r.tail.iter().rev().take(40).collect::<Vec<_>>().into_iter().rev()))
+        .raw("tail", json::str_arr(r.tail().iter().rev().take(40).collect::<Vec<_>>().into_iter().rev()))
         .done()
 }
 
@@ -169,7 +171,7 @@ fn main() {
                 }
                 if p.trace && n == 1 {
                     println!("hist {i} {} ops {}", r.desc, r.ops);
-                    for l in &r.tail {
+                    for l in &r.tail() {
                         println!("    {l}");
                     }
                     println!("flags {:?}", r.flags);
@@ -239,7 +241,7 @@ fn main() {
                                 .num("hist", i)
                                 .num("ops", r.ops)
                                 .str("replay", &format!("fbv sim --prop {} --seed {} --first {} --histories 1 --trace{}{}", p.prop, p.seed, i, if p.small { " --small" } else { "" }, p.scenario.as_ref().map(|s| format!(" --scen {s}")).unwrap_or_default()))
-                                .raw("last_events", json::str_arr(r.tail.iter().rev().take(24).collect::<Vec<_>>().into_iter().rev()))
+                                .raw("last_events", json::str_arr(r.tail().iter().rev().take(24).collect::<Vec<_>>().into_iter().rev()))
                                 .done(),
                         );
                     }
@@ -307,6 +309,135 @@ fn main() {
                 .done();
             println!("{out}");
             let _ = esc;
+        }
+        "mt" => {
+            let seed: u64 = arg(&args, "--seed", 1u64);
+            let rounds: u64 = arg(&args, "--rounds", 1000u64);
+            let budget_ms: u64 = arg(&args, "--budget-ms", 600_000u64);
+            let monitor = !flag(&args, "--no-probes");
+            let fp: u32 = arg(&args, "--failpoints", 0u32);
+            let small = flag(&args, "--small");
+            let kind_arg = arg_s(&args, "--kind");
+            let prop: u8 = arg(&args, "--prop", 1u8);
+            if monitor {
+                futures_buffered::verif::set_probe(Some(mt::mt_probe));
+                mt::set_failpoints(fp);
+            } else {
+                futures_buffered::verif::set_probe(None);
+            }
+            let t0 = std::time::Instant::now();
+            let mut r = prng::Rng::new(seed);
+            let mut sigs: HashSet<u64> = HashSet::new();
+            let mut viols: Vec<String> = Vec::new();
+            let mut viol_count: BTreeMap<String, u64> = BTreeMap::new();
+            let mut by_kind: BTreeMap<String, u64> = BTreeMap::new();
+            let mut tot: BTreeMap<&'static str, u64> = BTreeMap::new();
+            let mut nontriv = 0u64;
+            let mut done = 0u64;
+            let mut inconclusive = 0u64;
+            let mut watchdog = false;
+            for i in 0..rounds {
+                if t0.elapsed().as_millis() as u64 > budget_ms {
+                    watchdog = true;
+                    break;
+                }
+                let kind = kind_arg.clone().unwrap_or_else(|| r.pick(&mt::MT_KINDS).to_string());
+                let cfg = mt::RoundCfg {
+                    n: if small { r.range(1, 5) } else { *r.pick(&[1usize, 2, 3, 4, 8, 16, 33, 64, 70]) },
+                    threads: if small { r.range(1, 2) } else { r.range(1, 8) },
+                    calls: if small { r.range(4, 20) } else { r.range(10, 400) },
+                    track_blocks: monitor,
+                    migrate: r.chance(1, 4),
+                    kind,
+                };
+                let rs = prng::splitmix(&mut (seed ^ i.wrapping_mul(0x9E37_79B9_7F4A_7C15)));
+                if monitor {
+                    mt::blocks_begin();
+                }
+                let (mut v, st) = mt::round(&cfg, rs);
+                if monitor {
+                    let (bv, a, rel, vt, byw) = mt::blocks_end();
+                    for (rule, d) in bv {
+                        v.push(("C03".into(), rule, d));
+                    }
+                    *tot.entry("blocks_allocated").or_insert(0) += a;
+                    *tot.entry("blocks_released").or_insert(0) += rel;
+                    *tot.entry("waker_vtable_calls").or_insert(0) += vt;
+                    *tot.entry("blocks_released_by_a_waker_thread").or_insert(0) += byw;
+                }
+                done += 1;
+                *by_kind.entry(cfg.kind.clone()).or_insert(0) += 1;
+                *tot.entry("collection_polls").or_insert(0) += st.polls;
+                *tot.entry("waker_calls_on_other_threads").or_insert(0) += st.waker_calls;
+                *tot.entry("waker_calls_overlapping_a_poll").or_insert(0) += st.overlapping_wakes;
+                *tot.entry("waker_calls_after_collection_drop").or_insert(0) += st.orphan_calls;
+                *tot.entry("spurious_polls").or_insert(0) += st.spurious_polls;
+                *tot.entry("task_waker_switches").or_insert(0) += st.task_switches;
+                *tot.entry("items_yielded").or_insert(0) += st.items;
+                *tot.entry("rounds_with_consumer_on_another_thread").or_insert(0) += cfg.migrate as u64;
+                let nt = match prop {
+                    3 => st.orphan_calls > 0,
+                    _ => st.overlapping_wakes > 0,
+                };
+                if nt {
+                    nontriv += 1;
+                    sigs.insert(st.sig ^ (cfg.n as u64) << 48);
+                }
+                for (p_, rule, d) in &v {
+                    if p_ == "INCONCLUSIVE" {
+                        inconclusive += 1;
+                        continue;
+                    }
+                    *viol_count.entry(format!("{p_}/{rule}/{}", cfg.kind)).or_insert(0) += 1;
+                    if viols.len() < 12 {
+                        viols.push(
+                            Obj::new()
+                                .str("property", p_)
+                                .str("rule", rule)
+                                .str("subject", &cfg.kind)
+                                .str("detail", d)
+                                .num("round", i)
+                                .num("seed", seed)
+                                .num("n", cfg.n)
+                                .num("threads", cfg.threads)
+                                .num("calls", cfg.calls)
+                                .done(),
+                        );
+                    }
+                }
+            }
+            let pts = mt::points();
+            for (i, name) in ["point_after_register", "point_dequeued_before_clear", "point_enqueued_before_notify", "point_empty_before_pending", "point_inconsistent_queue", "point_budget_exhausted", "point_vacant_slot_skipped", "point_wake_coalesced"].iter().enumerate() {
+                tot.insert(name, pts[i]);
+            }
+            let out = Obj::new()
+                .str("mode", "mt")
+                .num("prop", prop)
+                .num("seed", seed)
+                .num("histories", done)
+                .num("nontrivial", nontriv)
+                .num("distinct_nontrivial", sigs.len())
+                .bool("watchdog", watchdog)
+                .raw("violations", arr(viols))
+                .raw("violation_counts", {
+                    let mut o = Obj::new();
+                    for (k, v) in &viol_count {
+                        o = o.num(k, v);
+                    }
+                    o.done()
+                })
+                .raw("inconclusive", Obj::new().num("round stopped by its logical step cap", inconclusive).done())
+                .raw("subjects", {
+                    let mut o = Obj::new();
+                    for (k, v) in &by_kind {
+                        o = o.num(k, v);
+                    }
+                    o.done()
+                })
+                .raw("observed", stats_json(&tot))
+                .num("wall_ms", t0.elapsed().as_millis())
+                .done();
+            println!("{out}");
         }
         "rule" => println!("{}", sim::rule_text(arg(&args, "--prop", 0u8))),
         "noop" => {}
